@@ -15,7 +15,7 @@ RULE = (
     "overvote, ballot lacking the contest, k>=2}. distinct = canonical JSON."
 )
 ASSUMPTIONS = [
-    "marks are placed only on the contest's own candidates (the property quantifies over 'any subset of candidates')",
+    "marks are placed on the contest's own candidates, or a ballot carries a write-in mark and nothing else; a ballot mixing candidate marks with a write-in mark is not generated (the tally and the assorter legitimately disagree about its validity)",
     "for plurality/approval a 'vote' is a truthy mark, as the shipped assorter and Contest.tally(enforce_rules=False) count it",
     "exact ties of a super-majority contest are judged only when 1/(2f) is a power of two; otherwise the float sum at a tie is rounding-dependent and the case is counted as tie_skipped",
     "tally margins are compared with 2*mean-1 at relative tolerance 1e-9",
@@ -47,8 +47,8 @@ def strategy(shard):
             f = None
         n = draw(st.integers(0, 40))
         # a few popular shapes repeated make ties and exact thresholds likely
-        pool = draw(st.lists(sa.ballot(cands), min_size=1, max_size=6))
-        ballots = [draw(st.sampled_from(pool)) if draw(st.integers(0, 3)) else draw(sa.ballot(cands)) for _ in range(n)]
+        pool = draw(st.lists(sa.ballot(cands, write_in=True), min_size=1, max_size=6))
+        ballots = [draw(st.sampled_from(pool)) if draw(st.integers(0, 3)) else draw(sa.ballot(cands, write_in=True)) for _ in range(n)]
         return {"kind": kind, "cands": cands, "winners": winners, "f": f, "ballots": ballots}
 
     return case()
